@@ -15,7 +15,7 @@ import numpy as np  # noqa: E402
 import pandas as pd  # noqa: E402
 from tdda.constraints import verify_df, detect_df  # noqa: E402
 
-MODEL_FAMS = [f for f in cx.FAMILIES if f not in ('datetime-tz', 'str', 'category', 'category-unused')]
+MODEL_FAMS = [f for f in cx.FAMILIES if f not in ('datetime-tz', 'str', 'category', 'category-unused') + cx.OPT_IN]
 SIGNS = ['positive', 'non-negative', 'zero', 'non-positive', 'negative', 'null']
 TYPES = ['bool', 'int', 'real', 'string', 'date']
 EPS = [Fraction(0), Fraction(1, 2), Fraction(1, 4), Fraction(1, 8)]
@@ -81,7 +81,9 @@ def gen_constraints(rng, col):
                     # the extreme value lies inside the tolerance band of the bound but outside the band one gets by applying
                     # epsilon to the data instead of to the bound (v(1-e) <= m < v/(1+e) and its mirror images, for
                     # e = 1/2, 1/4, 1/8; dyadic multipliers keep the arithmetic exact)
-                    v = base * rng.choice([2.0, 1.75, 1.3125, 1.140625, 0.5, 0.625, 0.75, 0.78125, 0.875, 0.8828125])
+                    # (and within a hundredth of the bound: 1 +- 1/256, 1 +- 1/128 - the tolerance of a default that is not 0)
+                    v = base * rng.choice([2.0, 1.75, 1.3125, 1.140625, 0.5, 0.625, 0.75, 0.78125, 0.875, 0.8828125,
+                                           1.00390625, 0.99609375, 1.0078125, 0.9921875, 1.00390625, 0.99609375])
                     if ftype == 'int' and v == int(v) and rng.random() < 0.7:
                         v = int(v)
                 if rng.random() < 0.1:
@@ -361,14 +363,16 @@ class C02(core.Prop):
             return cache[key]
         df = cx.to_df(case['frame'])
         eps = case['eps'][0] / case['eps'][1]
+        # the documented default of epsilon is 0: half of the cases with epsilon 0 leave the argument out
+        ekw = {} if (eps == 0 and case.get('eps_omitted', case['frame']['nrows'] % 2 == 0)) else {'epsilon': eps}
         try:
             with quiet(), contextlib.redirect_stdout(io.StringIO()):
                 if detect:
-                    v = detect_df(df, tdda_dict(case['constraints'], None if case.get('naive_tz_bounds') else case['frame']), epsilon=eps,
-                                  type_checking='strict' if case['strict'] else 'sloppy', repair=False)
+                    v = detect_df(df, tdda_dict(case['constraints'], None if case.get('naive_tz_bounds') else case['frame']),
+                                  type_checking='strict' if case['strict'] else 'sloppy', repair=False, **ekw)
                 else:
-                    v = verify_df(df, tdda_dict(case['constraints'], None if case.get('naive_tz_bounds') else case['frame']), epsilon=eps,
-                                  type_checking='strict' if case['strict'] else 'sloppy', repair=False)
+                    v = verify_df(df, tdda_dict(case['constraints'], None if case.get('naive_tz_bounds') else case['frame']),
+                                  type_checking='strict' if case['strict'] else 'sloppy', repair=False, **ekw)
             res = ('ok', v)
         except Exception as e:
             res = ('exc', e)
